@@ -341,6 +341,48 @@ def blocking_cases(res, rng, lines, impl_out, count, tag0):
         check_responses(res, case, accepted, got, True, 'blocking')
 
 
+def blocking_two_submitters(res):
+    """two threads hand actions to ONE blocking handler, the second started at every lock boundary of the first
+    (harness/interleave.py): the responses must come out in the order in which the actions were EXECUTED, one per action,
+    each with its own outcome — i.e. what one of the two serial orders gives."""
+    from harness import interleave as il
+
+    class Sys:
+        pass
+
+    def build():
+        s = Sys()
+        s.h = BoboActionHandlerBlocking(0)
+        s.log = []
+
+        def mk(name, ok):
+            class A(BoboAction):
+                def execute(self, event, name=name, ok=ok):
+                    s.log.append(name)
+                    return ok, name + '-data'
+            return A(name)
+        s.a, s.b = mk('A', True), mk('B', False)
+        return s
+
+    def obs(s):
+        out = []
+        while True:
+            r = s.h.get_handler_response()
+            if r is None:
+                break
+            out.append((r.action_name, r.complex_event.event_id, r.success, r.data))
+        return (tuple(s.log), tuple(out))
+    v, st = il.explore(build, lambda s: s.h.handle(s.a, cev('ea')), lambda s: s.h.handle(s.b, cev('eb')), obs,
+                       locks_of=lambda s: [s.h], max_runs=300)
+    res.add_case({'kind': 'blocking-two-submitters', 'points': st['points']}, nontrivial=True)
+    res.count('blocking_interleavings', st['runs'])
+    if v is not None:
+        res.violations.append(Violation(
+            'blocking-order', f"two threads submitting to one blocking handler, the second started at scheduling point {v['k']} of the "
+            f"first{(' and stopped at its own point %d' % v['k2']) if v.get('k2') else ''}: executions and responses {v['got']}; a "
+            f"serial order gives one of {v['allowed']}", {'kind': 'blocking-two-submitters', 'k': v['k'], 'k2': v.get('k2')}))
+
+
 # --------------------------------------------------------------------------
 # C. multithreading handler
 # --------------------------------------------------------------------------
@@ -710,6 +752,8 @@ def run(ctx: Ctx) -> Result:
         multi_cases(res, lines, impl_out, 6, only)
     elif only is not None and only.get('kind') == 'multi-shared':
         multi_shared_cases(res, rng, None, only)
+    elif only is not None and only.get('kind') == 'blocking-two-submitters':
+        blocking_two_submitters(res)
     else:
         # process pools first: no harness threads exist yet when they fork
         for procs in ([1, 2, 3, 4, 8] if T else [1, 2]):
@@ -719,6 +763,7 @@ def run(ctx: Ctx) -> Result:
         multi_cases(res, lines, impl_out, 6)
         multi_nested_cases(res, rng, 20000 if T else 600)
         multi_shared_cases(res, rng, None if T else 60)
+        blocking_two_submitters(res)
         blocking_cases(res, rng, lines, impl_out, 6000 if T else 300, 100)
         forwarder_cases(res, rng, lines, impl_out, 5000 if T else 200, 500)
         threads_gated(res, rng, lines, impl_out, 2500 if T else 100, 2000)
